@@ -161,6 +161,10 @@ pub struct Explorer {
     pub cov: Cov,
     pub viols: Vec<(Viol, String)>,
     pub cross: BTreeMap<String, u64>,
+    pub cross_samples: Vec<String>,
+    /// properties this run decides (empty = all). Findings of other monitors are counted as
+    /// cross-property events and the history continues, so that their consequences can show up.
+    pub decides: Vec<usize>,
     pub max_viols: usize,
     pub cmp_every: u64,
     pub track_heap: bool,
@@ -182,6 +186,8 @@ impl Explorer {
             cov: Cov::new(),
             viols: Vec::new(),
             cross: BTreeMap::new(),
+            cross_samples: Vec::new(),
+            decides: Vec::new(),
             max_viols: 5,
             cmp_every: 7,
             track_heap: matches!(m, Mode::Track | Mode::Shadow),
@@ -240,7 +246,9 @@ impl Explorer {
             for i in (1..NSLOTS).rev() {
                 order.swap(i, r.below(i + 1));
             }
-            found.extend(self.end_of_history(&mut pool, &order));
+            let eoh = self.end_of_history(&mut pool, &order);
+            let (keep, _) = self.filter(eoh, "end of history");
+            found.extend(keep);
         } else {
             Self::abandon(&mut pool);
         }
@@ -298,8 +306,70 @@ impl Explorer {
         out.push(Viol { prop, monitor, msg });
     }
 
-    /// One step: apply to model and real, judge the outcome, run all monitors.
+    /// Splits findings into those this run decides and cross-property events (counted, not returned).
+    pub fn filter(&mut self, found: Vec<Viol>, what: &str) -> (Vec<Viol>, bool) {
+        if self.decides.is_empty() {
+            return (found, false);
+        }
+        let mut keep = Vec::new();
+        let mut had_cross = false;
+        for v in found {
+            if self.decides.contains(&v.prop) {
+                keep.push(v);
+            } else {
+                had_cross = true;
+                let k = format!("C{:02}:{}", v.prop, v.monitor);
+                let c = self.cross.entry(k).or_insert(0);
+                *c += 1;
+                if *c <= 2 && self.cross_samples.len() < 6 {
+                    let mut m = format!("C{:02} [{}] {}: {}", v.prop, v.monitor, what, v.msg);
+                    m.truncate(m.floor_char_boundary(300));
+                    self.cross_samples.push(m);
+                }
+            }
+        }
+        (keep, had_cross)
+    }
+
+    /// After a cross-property finding: make the model follow the real values so that the run
+    /// can go on and later findings are relative to what the handles hold now.
+    fn resync(pool: &mut Pool) {
+        for i in 0..NSLOTS {
+            let text: Option<Option<String>> = pool.slots[i].as_ref().map(|s| std::str::from_utf8(s.as_bytes()).ok().map(|x| x.to_string()));
+            match text {
+                None => {
+                    pool.model[i] = None;
+                    pool.static_id[i] = None;
+                }
+                Some(Some(t)) => pool.model[i] = Some(t),
+                Some(None) => {
+                    // invalid UTF-8: cannot be modelled; abandon this handle
+                    if let Some(s) = pool.slots[i].take() {
+                        std::mem::forget(s);
+                    }
+                    pool.model[i] = None;
+                    pool.static_id[i] = None;
+                }
+            }
+        }
+    }
+
+    /// One step with all monitors; returns only the findings this run decides.
     pub fn step(&mut self, pool: &mut Pool, step: &Step, hist_faults: bool) -> Vec<Viol> {
+        let all = self.step_inner(pool, step, hist_faults);
+        if all.is_empty() {
+            return all;
+        }
+        let what = step.op.show();
+        let (keep, had_cross) = self.filter(all, &what);
+        if keep.is_empty() && had_cross {
+            Self::resync(pool);
+        }
+        keep
+    }
+
+    /// One step: apply to model and real, judge the outcome, run all monitors.
+    fn step_inner(&mut self, pool: &mut Pool, step: &Step, hist_faults: bool) -> Vec<Viol> {
         let mut out: Vec<Viol> = Vec::new();
         let op = &step.op;
         let t = op.target();
@@ -443,6 +513,19 @@ impl Explorer {
                     }
                 }
                 value_unchanged_expected = true;
+                let single_shot = !matches!(op, Op::Extend { .. } | Op::ExtendPanic { .. } | Op::Write { .. } | Op::Add { .. }) && !op.is_constructor();
+                if single_shot && snaps[t].present {
+                    if let Some(s) = pool.slots[t].as_ref() {
+                        if s.capacity() < snaps[t].cap {
+                            Self::viol(
+                                &mut out,
+                                prop,
+                                "failed-call-capacity",
+                                format!("the failed call took away capacity the string had: {} -> {} ({:?} -> {:?})", snaps[t].cap, s.capacity(), snaps[t].kind, kind_of(s)),
+                            );
+                        }
+                    }
+                }
                 let sig = mix(
                     tag_hash(op.tag()),
                     mix(snaps[t].kind as u64, mix(share as u64, mix(failed.min(1), refused.min(1)))),
